@@ -708,6 +708,7 @@ def assign_persist(cases, tag, fmt):
     for i, c in enumerate(cases):
         f = fmt(i, c)
         c["cfg"].pop("persist_cwd", None)
+        c["cfg"].pop("persist_pathlib", None)
         if f is None:
             c["cfg"].pop("persist", None)
             continue
@@ -718,6 +719,8 @@ def assign_persist(cases, tag, fmt):
             c["cfg"]["persist_cwd"] = str(d)
         else:
             c["cfg"]["persist"] = str(d / f"p.{f}")
+            if i % 7 == 5:
+                c["cfg"]["persist_pathlib"] = True       # the file name is given as a pathlib.Path
     return root
 
 
